@@ -68,7 +68,7 @@ theorem Rel.same {cfg : Cfg} {st st' : St} {t : Track} (h : Rel cfg st t)
     exact ⟨a.cur, a.res, a.br, by rw [hat]; exact a.chain, a.sub, a.nodup, a.ne, a.al⟩
   · intro tid b tps hp; rw [hph] at hp
     have a := h.retrying tid b tps hp
-    exact ⟨a.tid, a.res, a.br, by rw [hat]; exact a.chain, by rw [hat]; exact a.att, a.sub, a.nodup, by rw [hst]; exact a.nostop, a.ne, a.al⟩
+    exact ⟨a.tid, a.res, a.br, by rw [hat]; exact a.chain, by rw [hat]; exact a.att, a.sub, a.nodup, by rw [hst]; exact a.nostop, a.ne, a.al, a.prev⟩
   · intro tid ht; exact Nat.lt_of_lt_of_le (h.rt_lt tid ht) hnt
   · intro ls hp l hl tid hpc; rw [hph] at hp; exact Nat.lt_of_lt_of_le (h.bo_lt ls hp l hl tid hpc) hnt
   · intro ls hp; rw [hph] at hp; exact h.bo_nr ls hp
